@@ -31,6 +31,15 @@ def is_self_call(call):
     return isinstance(call.func, ast.Attribute) and isinstance(call.func.value, ast.Name) and call.func.value.id == 'self'
 
 
+def module_funcs(f):
+    """resolver for the evaluator: module-level functions of f's module (decision-table helpers such as
+    integer_as_number_of_bits) by name"""
+    def resolve(name):
+        r = f._mod.resolve_name(name)
+        return r if isinstance(r, ast.FunctionDef) else None
+    return resolve
+
+
 class Machine(object):
 
     def __init__(self, model, cls, side, align_noop=False, max_depth=4):
@@ -111,6 +120,7 @@ class Machine(object):
                 continue
             env = {'ARG%d' % i: a for i, a in enumerate(args)}
             env.update(config)
+            env['__funcs__'] = module_funcs(f)
             env = self.env_with_consts(env, f)
             b, q = bits, pos
             try:
